@@ -764,7 +764,7 @@ impl<'s> Parser<'s> {
                     "expected abbreviation with at most {} bytes, \
                          but found a longer abbreviation beginning with `{}`",
                     Abbreviation::capacity(),
-                    Bytes(&self.tz[start..i]),
+                    Bytes(&self.tz[start..][..i]),
                 ));
             }
             if !self.bump() {
@@ -823,7 +823,7 @@ impl<'s> Parser<'s> {
                     "expected abbreviation with at most {} bytes, \
                      but found a longer abbreviation beginning with `{}`",
                     Abbreviation::capacity(),
-                    Bytes(&self.tz[start..i]),
+                    Bytes(&self.tz[start..][..i]),
                 ));
             }
             if !self.bump() {
@@ -1401,7 +1401,7 @@ impl<'s> Parser<'s> {
                 .ok_or_else(|| {
                     err!(
                         "number `{}` too big to parse into 64-bit integer",
-                        Bytes(&self.tz[start..i]),
+                        Bytes(&self.tz[start..][..i]),
                     )
                 })?;
             self.bump();
@@ -1433,7 +1433,7 @@ impl<'s> Parser<'s> {
                 .ok_or_else(|| {
                     err!(
                         "number `{}` too big to parse into 64-bit integer",
-                        Bytes(&self.tz[start..i]),
+                        Bytes(&self.tz[start..][..i]),
                     )
                 })?;
             self.bump();
